@@ -42,7 +42,8 @@ class Connection:
     if previous:
       if previous.virtual:
         if not isinstance(previous, gfapy.line.Unknown) and \
-            previous.record_type != self.record_type:
+            previous.record_type != self.record_type and \
+            not previous._only_referenced_by_groups():
           # a placeholder stands for a line of a given kind (e.g. a segment);
           # a line of another kind cannot take its place
           raise gfapy.NotUniqueError(
@@ -74,6 +75,17 @@ class Connection:
         if line.virtual and line.is_connected() and not line.all_references:
           line.disconnect()
       raise
+
+  def _only_referenced_by_groups(self):
+    """
+    Is the line referenced only as an item of GFA2 groups?
+    (which may be lines of any kind; e.g. this holds for a placeholder
+    segment after the edge which mentioned it was removed again)
+    """
+    if self._gfa is None or self._gfa._version != "gfa2":
+      return False
+    return all(k in ["sets", "paths"] \
+               for k, v in (self._refs or {}).items() if v)
 
   @property
   def all_references(self):
